@@ -564,7 +564,7 @@ pub fn run_inner(ctx: &Ctx, report: &mut Report) {
     ctx.replay_corpus("api_ops", report);
     ctx.replay_corpus("wire_bytes", report);
     if ctx.tier == Tier::Thorough && std::env::var("VERIF_C06_CHILD").is_err() {
-        ctx.fuzz_campaign("api_ops", 3_000_000, 2048, report);
+        ctx.fuzz_campaign("api_ops", 800_000, 1024, report);
         ctx.fuzz_campaign("wire_bytes", 20_000_000, 300, report);
     }
     ctx.run_part(&OpsPart, report);
